@@ -289,6 +289,7 @@ func (fx *FX) callContract(st *State, v ssa.Value, callee *ssa.Function, fc *Fun
 		res = fx.havoc("ret_"+callee.Name(), rt, tTrue)
 	}
 	fx.labelCall(v, callee, c)
+	fx.calleeCompareScan(callee, c, pos, 0)
 	g := and(st.PC, guard)
 	if fc == nil {
 		if fx.inlinable(callee) {
